@@ -687,6 +687,16 @@ func corpusM4(cfg *config) []string {
 		t2.co = append(t2.co, uint64(m4PayloadBase+k*len(one)))
 	}
 	ops = append(ops, m4Op("wf", t2, t2.file(p4)))
+	// a two-second payload of a high-rate camera: 6000 accelerometer and 6000 gyroscope readings, a
+	// device container of 72 KB (its length no longer fits 16 bits: structure size 4 x repeat), then an
+	// ordinary payload
+	bigDev := nest("DEVC", klv("DVID", 'L', 4, 1, beInts(4, 1)),
+		nest("STRM", klv("SCAL", 's', 2, 1, beInts(2, 418)), klv("ACCL", 's', 6, 6000, gmValueBytes(r, 36000))),
+		nest("STRM", klv("SCAL", 's', 2, 1, beInts(2, 3755)), klv("GYRO", 's', 6, 6000, gmValueBytes(r, 36000))))
+	pb := append(append([]byte{}, bigDev...), one...)
+	tb := &m4Tables{track: true, ts: 1000, stsc: [][2]uint32{{1, 2}}, stts: [][2]uint32{{1, 2000}, {1, 1001}},
+		sizes: []uint32{uint32(len(bigDev)), uint32(len(one))}, co: []uint64{m4PayloadBase}}
+	ops = append(ops, m4Op("wf", tb, tb.file(pb)))
 	// empty file, no metadata track, zero timescale
 	ops = append(ops, "dec mut ts=1000 track=0 stsc=~ stts=~ sz=~ uni=0 sn=0 co=~ file=-")
 	t3 := *t1
